@@ -123,23 +123,47 @@ def physical_name_rule(ctx, rid, only_harvester=False):
     return rr
 
 
-def _policy_table(ctx, rr, rid, f, old_names, new_names, valuation_key="overwrite"):
+def _policy_table(ctx, rr, rid, f, old_names, new_names, valuation_key="overwrite", only=None, _depth=0):
     g = build_cfg(f.node)
     ctx.touch(f, g)
     for val, label in ((TRUE, "True"), (FALSE, "False"), (NONE, "None")):
+        if only is not None and label != only:
+            continue
         init = {valuation_key: val, "self._full_ds": NOTNONE}
+        for x in old_names | new_names:
+            init.setdefault(x, NOTNONE)
         fl = Flow(g, init).run()
         # assignments producing the merged dataset
         prods = []
         for n in g.nodes:
-            if n.id in fl.visited and n.kind == "stmt" and isinstance(n.ast, ast.Assign) and isinstance(n.ast.value, ast.Call):
+            if n.id in fl.visited and n.kind == "stmt" and isinstance(n.ast, (ast.Assign, ast.Return)) and isinstance(n.ast.value, ast.Call):
                 c = n.ast.value
                 if callee_name(ctx, f, c) in ("xarray.merge", "xarray.combine_by_coords", "xarray.concat"):
                     prods.append((n, c))
                 elif isinstance(c.func, ast.Attribute) and c.func.attr in ("combine_first", "merge", "update", "combine"):
                     prods.append((n, c))
         if not prods:
-            rr.bad(ctx.finding(rid, f, f.node, "%s: with overwrite=%s no merge of old and new data is reachable" % (f.name, label), construct="no-merge " + label), "%s overwrite=%s" % (f.name, label))
+            # the merge may live in a helper that is handed old, new and the policy
+            from ..util import callee_func
+            from ..callgraph import bind_call
+            delegated = False
+            for n in g.nodes:
+                if n.id not in fl.visited:
+                    continue
+                for c in node_calls(n):
+                    cf = callee_func(ctx, f, c)
+                    if cf is None or _depth > 2:
+                        continue
+                    b, _, _ = bind_call(c, cf)
+                    inv = {norm(a): p_ for p_, a in b.items()}
+                    o2 = {inv[x] for x in old_names if x in inv}
+                    n2 = {inv[x] for x in new_names if x in inv}
+                    pol = [p_ for p_, a in b.items() if norm(a) == valuation_key]
+                    if o2 and n2 and pol:
+                        _policy_table(ctx, rr, rid, cf, o2, n2, pol[0], only=label, _depth=_depth + 1)
+                        delegated = True
+            if not delegated:
+                raise AnalysisError("%s: with overwrite=%s no merge of old and new data was found (neither inline nor in a helper receiving both datasets and the policy)" % (f.name, label))
             continue
         for n, c in prods:
             txt = norm(c)
@@ -186,6 +210,21 @@ def policy_rule(ctx, rid):
     _policy_table(ctx, rr, rid, prog.need_func(FARM + ".Harvester.add_ds"), {"self._full_ds"}, {"new_ds"})
     _policy_table(ctx, rr, rid, prog.need_func(MAN + ".save_merge_ds"), {"old_ds"}, {"ds"})
     return rr
+
+
+def _expands_to(fi, e, allowed, depth=0):
+    """e is one of the allowed expressions, or a local alias / conditional
+    choice between them."""
+    if norm(e) in allowed:
+        return True
+    if depth > 4:
+        return False
+    if isinstance(e, ast.IfExp):
+        return _expands_to(fi, e.body, allowed, depth + 1) and _expands_to(fi, e.orelse, allowed, depth + 1)
+    if isinstance(e, ast.Name):
+        defs = [v for _, v in assignments_to(fi, e.id) if v is not None]
+        return bool(defs) and all(_expands_to(fi, d, allowed, depth + 1) for d in defs)
+    return False
 
 
 def sync_order_rule(ctx, rid, cls="Harvester"):
@@ -246,11 +285,12 @@ def sync_order_rule(ctx, rid, cls="Harvester"):
     need(sv, "anchor lost: %s does not call %s" % (sname, saver))
     if cls == "Sampler":
         pass      # identity and ordering for the Sampler are checked by failed_save_rule
-    elif all(norm(c.args[0]) == "self." + attr for n, c in sv):
+    elif all(_expands_to(sf, c.args[0], {"self." + attr, [p for p in sf.positional if p.startswith("new_full")][0]}) for n, c in sv):
         st = [n for n in gs.nodes if n.kind == "stmt" and isinstance(n.ast, ast.Assign) and any(path_key(t) == "self." + attr for t in n.ast.targets)]
         p_new = [p for p in sf.positional if p.startswith("new_full")][0]
         fl2 = Flow(gs, {p_new: NOTNONE, "engine": const("h5netcdf" if cls == "Harvester" else "pickle")}).run()
-        okst = [s for s in st if norm(s.ast.value) == p_new and all(gs.completes_before(s.id, n.id, feasible=fl2.feasible) for n, c in sv if n.id in fl2.visited)]
+        okst = [s for s in st if _expands_to(sf, s.ast.value, {p_new}) and (all(gs.completes_before(s.id, n.id, feasible=fl2.feasible) for n, c in sv if n.id in fl2.visited)
+                                                                             or all(gs.completes_before(n.id, s.id, feasible=fl2.feasible) for n, c in sv if n.id in fl2.visited))]
         if okst:
             rr.ok("%s: memory := new data, then exactly that object is saved (memory = disk)" % sname)
         else:
